@@ -735,6 +735,8 @@ class Acceptor(object):
             if _did(ev, "skip_element"):
                 skipped_by_hook = True
         st_exp = []
+        if skipped_by_hook:
+            rec["skipped_by"] = "hook"
         if hook_raised:
             failed = True
             rec["hook_failed"] = True
@@ -782,7 +784,9 @@ class Acceptor(object):
                 continue
             if not running and not loose:
                 if skip_rest:
-                    e["allowed"] = {"skipped"}
+                    # (after an earlier non-pass in continue_after_failed_step mode both
+                    #  readings of the statement apply to a step without definition)
+                    e["allowed"] = {"skipped"} if (d or not failed) else {"skipped", "undefined"}
                     e["why"] = "scenario-skipped-by-step"
                 else:
                     e["allowed"] = {"skipped"} if d else {"undefined"}
@@ -889,6 +893,7 @@ class Acceptor(object):
                     loose = True
             elif skip_rest:
                 running = False
+                loose = False
                 hint = "skip-rest"
                 rec["skipped_by"] = "step"
         return failed, exp, hint
